@@ -17,7 +17,8 @@ RULE = ("random projects/memory images/configurations as for C01; each write() c
         "that do not continue) - such a write may not "
         "report success; values without an encoding for the tag's type (3.7 / nan / inf / 1e30 to an integer) may neither change memory nor report success; "
         "the caller's value objects are deep-copied before the call and must be unchanged after it; every third project holds an array sized so that overlapping "
-        "plain writes of one call (slice, slice again, element) land in different multi-service packets - the last request for a byte must win; the whole controller memory is snapshotted "
+        "plain writes of one call (slice, slice again, element) land in different multi-service packets - the last request for a byte must win; every fifth project a second "
+        "driver in the same process talks to ANOTHER controller that has tags of the same names (other types): interleaved writes change the right controller only; the whole controller memory is snapshotted "
         "before the call and diffed after it against the reference expectation (addressed bytes = reference encoding, padding/hidden/after-LEN "
         "bytes don't-care, every other byte unchanged); the target's journal of executed write services is matched against the requests "
         "(exactly one Write / one tiling fragment sequence / one read-modify-write per word with exact-width masks touching only requested "
@@ -393,6 +394,46 @@ def run(ctx):
                 elif st == "ok" and out:
                     res.violation("value-without-encoding-reported-success", f"write({t.full_name!r}, {badv!r}) to a {t.dtype.name} reported success: {out!r:.160} ({sc.label})", {"tag": t.full_name})
                 dev.write_journal.clear()
+            # ---- two controllers in one process (see C01): a write through one driver changes that driver's controller, at the
+            # addressed location, and nothing in the other controller - also for tags both controllers call by the same name
+            if pi % 5 == 2 and not sc.micro:
+                from vlib import refcodec as rc2
+                cfgB = rng.choice([c for c in CONFIGS if not c[2] and c[0] != cfg[0]])
+                prjB = rpj.generate_project(rng, "small", fw=cfgB[1], micro800=False)
+                plain = [t for t in prj.user_tags(with_programs=False) if t.kind == "user" and ":" not in t.name]
+                shared = [rpj.add_array_tag(prjB, rng, t.name, rng.choice(["INT", "REAL", "LINT", "DINT"]), rng.choice([3, 10, 50]))
+                          for t in rng.sample(plain, min(4, len(plain))) if prjB.find(t.name) is None]
+                scB = LogixScenario(rng, config=cfgB, project=prjB, bench=sc.b, host="192.168.1.237")
+                res.count("two-controller-scenarios")
+                if not scB.ok():
+                    res.ev()
+                    res.violation("two-plc:open-failed", f"a second LogixDriver for another controller ({scB.label}) failed to open while the first ({sc.label}) is open: {scB.opened!r:.200}", None)
+                else:
+                    for ci in range(12):
+                        cur, other = (sc, scB) if rng.random() < 0.5 else (scB, sc)
+                        tg = None
+                        if shared and rng.random() < 0.7:
+                            tg = cur.prj.find(rng.choice(shared).name)
+                        r = logixreq.attach_value(logixreq.gen_request(cur.prj, rng, cur.conn_size, for_write=True, tag=tg), rng)
+                        if r.kind == "value" and r.dtype.kind == "struct" and (any(m.name.startswith("__") for m in r.dtype.members) or getattr(r.dtype, "overlapped", False)):
+                            continue
+                        snap_other = other.prj.snapshot()
+                        st, out = cur.b.call("write", cur.drv.write, r.text, r.value)
+                        cur.dev.finish_transfers()
+                        res.ev()
+                        res.seen("two-plc", cur is scB, r.shape, tg is not None)
+                        if st != "ok" or not out:
+                            res.violation("two-plc:valid-write-fails", f"write({r.text!r}, {r.value!r:.60}) -> {out!r:.200} ({cur.label}; other controller {other.label} open in the same process)", None)
+                            continue
+                        if other.prj.snapshot() != snap_other:
+                            res.violation("two-plc:write-changed-the-other-controller", f"write({r.text!r}) through the driver of {cur.label} changed memory of the other controller ({other.label})", None)
+                        st, t = cur.b.call("read", cur.drv.read, r.text)
+                        want = logixreq.expected_written(r)
+                        if st != "ok" or not t or not rc2.values_equal(r.desc(), want, t.value):
+                            res.violation("two-plc:read-back-differs", f"write({r.text!r}, {r.value!r:.60}) succeeded but read() then returns {t!r:.160}; expected {want!r:.100} ({cur.label})", None)
+                    cur = None
+                    scB.dev.finish_transfers()
+                scB.close()
             sc.close()
         except ScenarioDead:
             continue
